@@ -17,7 +17,7 @@ func init() {
 	Register(&Prop{
 		ID: "C17",
 		Rule: "a hijacking request (optionally preceded by ordinary requests, which may call HijackSetNoResponse(true) without hijacking; optionally HijackSetNoResponse on the hijacking request) followed by arbitrary bytes E: in the same write, in a later write, or straddling the 4096-byte read buffer (head padded), " +
-			"x ReduceMemoryUsage x KeepHijackedConns x per-request read/write deadlines from HeaderReceived on the hijacking request (E arriving after they expired) x handler reading everything or only k bytes (the rest read after the handler returned when the connection is kept); " +
+			"x ReduceMemoryUsage x KeepHijackedConns x per-request read/write deadlines from HeaderReceived on the hijacking request (E arriving after they expired) x handler reading everything with Read calls, draining with io.Copy (the connection is an io.WriterTo), or reading only k bytes (the rest read after the handler returned when the connection is kept); " +
 			"monitor: bytes read from the hijacked connection = E exactly, response fully written before the hijack handler starts (nothing written with NoResponse), nothing written afterwards, closed iff not kept; " +
 			"hijack2: the bytes after the hijacking request are buffered with it, the hijack handler reads only after ANOTHER connection of the same server was served (pooled readers are reused); " +
 			"non-trivial = E non-empty; distinct = distinct input",
@@ -173,6 +173,8 @@ func init() {
 				}
 				if strings.Contains(cfg, "khj=1") && len(E) > 1 && r.Chance(60) {
 					opts += fmt.Sprintf("&hjk=%d", 1+r.Intn(len(E)))
+				} else if r.Chance(30) {
+					opts += "&hjc=1"
 				}
 				pre := fmt.Sprint(r.Intn(3))
 				if r.Chance(25) {
